@@ -23,7 +23,8 @@ import _wire
 
 def run(c):
     drv = c.build("wire")
-    _wire.mc(c, "Wire", "WireMC.%s.cfg" % c.tier, timeout=3000)
+    if not c.replay:
+        _wire.mc(c, "Wire", "WireMC.%s.cfg" % c.tier, timeout=3000)
     if c.replay:
         trace = c.replay
     else:
